@@ -52,6 +52,7 @@ def _explore(task):
 
         def body():
             env.reset()
+            sys.modules['numpy'].PI_PROVIDER = None
             sc = C.SymCtx(E)
             state['ctx'] = sc
             h.run(sc, cfg)
